@@ -131,6 +131,7 @@ def build(P, grammar, tag=[0]):
     for r, (_, _, ex) in zip(rules, grammar):
         if ex is not None:
             r.exclude_rule(rules[ex])
+    cls._mk = staticmethod(mk)
     return cls, rules
 
 
